@@ -2555,6 +2555,21 @@ func (db *DB) checkpointWithExecutor(ctx context.Context, mode string, exec *syn
 		return false, err
 	}
 
+	// Re-read the WAL header before writing to the WAL again. If it already
+	// differs, a commit restarted the WAL after the copy above and was then
+	// backfilled by this checkpoint, so its frame count belongs to a WAL
+	// generation that was never copied and cannot be compared below.
+	// PASSIVE holds the write lock across this window and TRUNCATE always
+	// takes the boundary snapshot (its WAL is empty at this point).
+	restartedBeforeCheckpoint := false
+	if mode != CheckpointModePassive && mode != CheckpointModeTruncate {
+		mid, err := readWALHeader(db.WALPath())
+		if err != nil {
+			return false, err
+		}
+		restartedBeforeCheckpoint = !bytes.Equal(hdr, mid)
+	}
+
 	if barrierTx != nil {
 		if err = rollback(barrierTx); err != nil {
 			return false, fmt.Errorf("rollback passive checkpoint barrier: %w", err)
@@ -2597,7 +2612,7 @@ func (db *DB) checkpointWithExecutor(ctx context.Context, mode string, exec *syn
 	// sync and the checkpoint taking the writer lock. Those commits are
 	// backfilled and truncated unseen, so TRUNCATE must take the boundary
 	// snapshot unconditionally.
-	if mode != CheckpointModeTruncate && walFrameN <= preCheckpointFrameN {
+	if mode != CheckpointModeTruncate && !restartedBeforeCheckpoint && walFrameN <= preCheckpointFrameN {
 		result, err = db.verifyAndSyncWithExecutor(ctx, true, exec, 0)
 		if err != nil {
 			return false, fmt.Errorf("cannot copy wal after checkpoint: %w", err)
